@@ -101,6 +101,24 @@ impl CrashSpec for MmapVecHist {
         }
         Ok(s)
     }
+    fn after_reopen(&self, dir: &Path) -> Result<(), String> {
+        // keep using the recovered vector: push across a growth step, sync, reopen
+        let p = dir.join("v.mmapvec");
+        let mut v: MmapVec<u64> = MmapVec::open(&p, MmapVecConfig::default()).map_err(es)?;
+        let mut want: Vec<u64> = v.as_slice().to_vec();
+        for i in 0..6u64 {
+            let x = 0x7700_0000_0000_0000 + i;
+            v.push(x).map_err(es)?;
+            want.push(x);
+        }
+        v.sync().map_err(es)?;
+        drop(v);
+        let v: MmapVec<u64> = MmapVec::open(&p, MmapVecConfig::default()).map_err(es)?;
+        if v.as_slice() != &want[..] {
+            return Err(format!("after recovery + 6 pushes + sync + reopen the vector holds {} elements, expected {}", v.len(), want.len()));
+        }
+        Ok(())
+    }
 }
 
 // ---- PlainBlobStore -----------------------------------------------------------------------------
@@ -151,6 +169,42 @@ impl CrashSpec for PlainHist {
         }
         let s = PlainBlobStore::new(&d).map_err(es)?;
         Ok(plain_state(&s, 6))
+    }
+    fn after_reopen(&self, dir: &Path) -> Result<(), String> {
+        // keep using the recovered store: two more puts (one shorter than anything an interrupted put may have
+        // left behind), every older record unchanged, and the same again after a clean reopen
+        let d = dir.join("store");
+        let mut s = PlainBlobStore::new(&d).map_err(es)?;
+        let before: Vec<Option<Vec<u8>>> = (0..=8u32).map(|id| s.get(id).ok()).collect();
+        let x: &[u8] = b"zz";
+        let y: Vec<u8> = vec![0x5A; 900];
+        let ix = s.put(x).map_err(es)?;
+        let iy = s.put(&y).map_err(es)?;
+        if ix == iy {
+            return Err(format!("two puts after recovery returned the same id {ix}"));
+        }
+        for (id, old) in before.iter().enumerate() {
+            if let Some(old) = old {
+                if id as u32 == ix || id as u32 == iy {
+                    return Err(format!("put after recovery re-used id {id} of a live record"));
+                }
+                if s.get(id as u32).ok().as_ref() != Some(old) {
+                    return Err(format!("record {id} changed after a put on the recovered store"));
+                }
+            }
+        }
+        for pass in 0..2 {
+            let gx = s.get(ix).map_err(es)?;
+            let gy = s.get(iy).map_err(es)?;
+            if gx != x {
+                return Err(format!("pass {pass}: record {ix} put after recovery reads back {} bytes, stored {}", gx.len(), x.len()));
+            }
+            if gy != y {
+                return Err(format!("pass {pass}: record {iy} put after recovery reads back {} bytes, stored {}", gy.len(), y.len()));
+            }
+            s = PlainBlobStore::new(&d).map_err(es)?;
+        }
+        Ok(())
     }
 }
 
